@@ -2,6 +2,7 @@ package keeper
 
 import (
 	"context"
+	"encoding/json"
 	"fmt"
 
 	errorsmod "cosmossdk.io/errors"
@@ -36,6 +37,11 @@ func (k Keeper) RegisterExecutorChangePlan(
 		if err != nil {
 			return err
 		}
+	}
+
+	// the codec's json decoder stops after the first value and ignores whatever follows it
+	if !json.Valid([]byte(consensusPubKey)) {
+		return errorsmod.Wrap(types.ErrInvalidExecutorChangePlan, "invalid pub key")
 	}
 
 	var pubKey cryptotypes.PubKey
